@@ -117,6 +117,8 @@ class World:
 
     def now(self):
         t = time.now
+        if t == float('inf') and getattr(self, 'inf99', False):
+            return 99       # scenario spaces with integer dates write the end of time as 99
         return int(t) if t != float('inf') and t == int(t) else t
 
     def emit(self, e, a, **kw):
@@ -139,7 +141,10 @@ class World:
         if isinstance(err, Concurrent):
             return ['conc', [self.enc(c) for c in err.children]]
         if isinstance(err, TaskCancelled):
-            return ['tcancelled', self.task_id.get(id(getattr(err, 'subject', None)), 0)]
+            k = self.task_id.get(id(getattr(err, 'subject', None)), 0)
+            if err.args != ('tok', k):
+                return ['tcancelled', k, 'token %r' % (err.args,)]     # (not what cancel() was given)
+            return ['tcancelled', k]
         if isinstance(err, TaskClosed):
             return ['tclosed', ctx_task]
         if isinstance(err, StreamClosed):
@@ -315,7 +320,8 @@ class Puppet:
 
     async def op_cancel(self, op):
         async def f():
-            self.w.tasks[op['k']].cancel()
+            # every cancellation carries a token; awaiters must get TaskCancelled with exactly this token
+            self.w.tasks[op['k']].cancel('tok', op['k'])
         await self.leaf(op, f, {'k': op['k']})
 
     async def op_await_t(self, op):
@@ -545,6 +551,8 @@ class Puppet:
     # ------------------------------------------------------------ collect / first
     async def work(self, i, dur, fail):
         self.emit('ws', w=i)
+        if dur == 99:
+            dur = float('inf')
         if dur > 0:
             await (time + dur)
         self.emit('we', w=i)
@@ -554,6 +562,8 @@ class Puppet:
 
     async def op_flow(self, op):
         acts, k, cons = op['acts'], op['k'], op['cons']
+        if any(a['d'] == 99 for a in acts):
+            self.w.inf99 = True
         workers = [self.work(i + 1, a['d'], a['f']) for i, a in enumerate(acts)]
         self.emit('b', op='flow', fop=op['fop'], acts=acts, k=k, cons=cons)
         try:
